@@ -117,7 +117,7 @@ func errIsNil(cd Cond, errv ssa.Value) bool {
 	if !isC || !k.IsNil() {
 		return false
 	}
-	return (b.Op == token.EQL && cd.Sense) || (b.Op == token.NEQ && !cd.Sense)
+	return (eqHolds(b, cd)) || (b.Op == token.NEQ && !cd.Sense)
 }
 
 // ruleStrDefaults: positions of the string functions. (a) string.byte's end position defaults to its
